@@ -592,3 +592,62 @@ func ext۰reflect۰Value۰Bytes(fr *frame, args []value) value {
 func init() {
 	externals["(reflect.Value).Bytes"] = ext۰reflect۰Value۰Bytes
 }
+
+func ext۰reflect۰Value۰SetMapIndex(fr *frame, args []value) value {
+	// Signature: func (v reflect.Value, key, elem reflect.Value)
+	m, ok := rV2V(args[0]).(*hashmap)
+	if !ok || m == nil {
+		panic(fr.i.rtPanic("assignment to entry in nil map"))
+	}
+	k := fr.mapKey(rV2V(args[1]))
+	if es, isStruct := args[2].(structure); isStruct && es[0].(rtype).t == nil {
+		// the zero Value deletes the key
+		fr.i.mapDelete(m, k)
+		return nil
+	}
+	fr.i.mapInsert(m, k, reflectStore(rV2T(args[0]).t.Underlying().(*types.Map).Elem(), args[2]))
+	return nil
+}
+
+// reflectStore is the interpreter value to store for reflect.Value v into a
+// location of static type t (interface locations hold iface values).
+func reflectStore(t types.Type, v value) value {
+	raw := rV2V(v)
+	if types.IsInterface(t) {
+		if itf, already := raw.(iface); already {
+			return itf
+		}
+		return iface{t: rV2T(v).t, v: raw}
+	}
+	return raw
+}
+
+func ext۰reflect۰MakeSlice(fr *frame, args []value) value {
+	// Signature: func (typ reflect.Type, len, cap int) reflect.Value
+	t := args[0].(iface).v.(rtype).t
+	n, c := args[1].(int), args[2].(int)
+	s := make([]value, n, c)
+	for k := range s {
+		s[k] = zero(t.Underlying().(*types.Slice).Elem())
+	}
+	return makeReflectValue(t, s)
+}
+
+func ext۰reflect۰Append(fr *frame, args []value) value {
+	// Signature: func (s reflect.Value, x ...reflect.Value) reflect.Value
+	t := rV2T(args[0]).t
+	elem := t.Underlying().(*types.Slice).Elem()
+	old, _ := rV2V(args[0]).([]value)
+	r := make([]value, len(old), len(old)+len(args[1].([]value)))
+	copy(r, old)
+	for _, x := range args[1].([]value) {
+		r = append(r, reflectStore(elem, x))
+	}
+	return makeReflectValue(t, r)
+}
+
+func init() {
+	externals["(reflect.Value).SetMapIndex"] = ext۰reflect۰Value۰SetMapIndex
+	externals["reflect.MakeSlice"] = ext۰reflect۰MakeSlice
+	externals["reflect.Append"] = ext۰reflect۰Append
+}
